@@ -32,6 +32,7 @@ var (
 	flagExplain  = flag.String("explain", "", "replay: re-derive the obligation stored in this violation file")
 	flagList     = flag.Bool("list", false, "print every obligation")
 	flagFixture  = flag.String("fixture", "", "internal: analyse a fixture directory instead of the repo (selftest)")
+	flagAlarms   = flag.Bool("alarms", false, "development: load the tree once (linux/amd64), run the rules of every property on it and print the obligations that are not discharged (the corpora of tools/*_matrix.sh; the registered checks never use this)")
 	flagGenAnch  = flag.Bool("gen-anchors", false, "development: print anchors_gen.go for the tree given by -repo")
 )
 
@@ -79,6 +80,9 @@ func main() {
 	}
 	if *flagExplain != "" {
 		os.Exit(explain(*flagExplain, tier))
+	}
+	if *flagAlarms {
+		os.Exit(alarms(tier))
 	}
 	if *flagProp == "" {
 		fmt.Fprintln(os.Stderr, "usage: p9check -prop Cxx [-tier quick|thorough]")
@@ -432,4 +436,42 @@ func explain(path, tier string) int {
 		fmt.Println("obligation no longer generated from the current tree")
 	}
 	return 0
+}
+
+// alarms: development mode behind tools/fast_matrix.sh.  One load, every property's rules, one
+// line per obligation that is not discharged.  Exit status 1 when there is any.
+func alarms(tier string) int {
+	l, err := load(*flagRepo, "linux/amd64", "")
+	if err != nil {
+		fmt.Println("ALARM load", err)
+		return 1
+	}
+	var ids []string
+	for id := range props {
+		ids = append(ids, id)
+	}
+	sort.Strings(ids)
+	rc := 0
+	for _, id := range ids {
+		func() {
+			defer func() {
+				if e := recover(); e != nil {
+					fmt.Printf("ALARM %s %s.internal / checker panic: %v\n", id, id, e)
+					rc = 1
+				}
+			}()
+			r := &Run{Prop: id, Tier: tier, L: l, Config: "linux/amd64", stats: map[string]int{}}
+			props[id].fn(r)
+			for _, o := range r.Obs {
+				if o.Status != "ok" {
+					fmt.Printf("ALARM %s %s / %s [%s] %s\n", id, o.Rule, o.Construct, o.Status, firstLine(o.Detail))
+					rc = 1
+				}
+			}
+		}()
+	}
+	for _, n := range l.Notes {
+		fmt.Println("NOTE", n)
+	}
+	return rc
 }
